@@ -24,6 +24,8 @@ R3 (K4, = C26-R2) nothing is ever deleted under held/; unlock, force_break and f
 R4 (K6 on exception types) peek() turns NoSuchFile into "not held" (no exception escapes, normal return); break_lock
    routes LockCorrupt to force_break_corrupt, so an unreadable info file can still be broken explicitly.
 R5 (K1) _remove_pending_dir removes only paths built from its tmpname argument, info file first.
+R6 (fourth round): no transport call (peek, transport.*) between the successful rename into held/ and `_lock_held = True` has an
+   unhandled exception edge out of _attempt_lock (today: KNOWN FINDING, the read-back peek()).
 Does not decide: the crash prefixes themselves (that is fault enumeration); it decides the orderings under which every
 prefix is recoverable.
 """
@@ -69,6 +71,16 @@ def run(ctx):
     cut = {(r, b, l) for r in ren for (b, l) in g.succ[r] if l != "X"}
     hit = set(held) & g.copy_without(cut).reachable_from_entry()
     ctx.check("R2-held-only-on-success", where, not hit, "the held flag is set only after the rename into held/ succeeded")
+    # ---- R6: between the rename into held/ and the held flag no transport fault can end the attempt unnoticed -------------
+    post_ren = g.copy_without({(r, b, l) for r in ren for (b, l) in g.succ[r] if l == "X"})
+    fallible27 = [n.id for n in g.nodes if n.id in post_ren.reach(ren) and n.kind == "stmt" and n.id not in ren and any(call_attr(c) == "peek" or "transport" in (call_recv(c) or "") for c in n.calls()) and n.id not in held]
+    bad27 = []
+    for nid in fallible27:
+        xs = [b for (b, l) in g.succ[nid] if l == "X"]
+        # the builder draws exception edges only inside try blocks: no X edge at all means "not covered by any handler"
+        if not xs or g.raise_exit in xs:
+            bad27.append(nid)
+    ctx.check("R6-fault-after-rename-handled", where, not bad27, "a transport call between the successful rename and `_lock_held = True` does not raise straight out of the attempt (a handler gives the lock back or the flag is set first)", construct=g.nodes[bad27[0]].text() if bad27 else "", message=f"`{g.nodes[bad27[0]].text() if bad27 else ''}` runs after held/ was renamed into place and before the held flag is set, with no handler: a transport fault there ends attempt_lock() with an error while lock/held stays on disk under this process's nonce — the failed acquisition leaves the lock held by the failing process (is_held is False, unlock() refuses, only break-lock removes it)")
     raises = [n.id for n in g.nodes if n.kind == "stmt" and isinstance(n.ast, ast.Raise)]
     k1_never_after(ctx, "R2-held-only-on-success", where, g, held, raises, "no failure exit after the held flag was set")
     for n in g.nodes:
